@@ -6,7 +6,7 @@
 From Coq Require Import String.
 From Coq Require Import List Bool Arith NArith ZArith.
 Import ListNotations.
-Require Import Alloc Str JunModel JunProofs.
+Require Import Alloc Str IpText JunModel JunProofs G_juniper TextModel ValueProofs.
 
 Theorem C08_consistent_and_collision_free :
   forall (key : Type) (keq : key -> key -> bool), (forall a b, keq a b = true <-> a = b) ->
@@ -17,6 +17,14 @@ Theorem C08_consistent_and_collision_free :
     forall i j ri rj vi vj, nth_error rs i = Some ri -> nth_error rs j = Some rj -> nth_error vs i = Some vi -> nth_error vs j = Some vj ->
       (req_key key cls ri = req_key key cls rj <-> vi = vj).
 Proof. exact consistent_and_collision_free. Qed.
+
+(* on the EXECUTABLE model: a value the lookup already knows gets exactly the stored replacement back and the lookup is untouched *)
+Theorem C08_known_value_gets_its_stored_replacement :
+  forall orc reserved salt raw lk h v t anon,
+  extract_enclosing raw [] [] = (h, v, t) -> mem_str v reserved = false -> is_empty v = false -> starts_with MAGIC v = false ->
+  lget lk v = Some anon ->
+  anonymize_value orc raw lk reserved salt = Done ((h ++ anon ++ t)%list, lk).
+Proof. exact known_value_gets_its_stored_replacement. Qed.
 
 (* two $9$ encodings of one plaintext decrypt to the same key *)
 Theorem C08_juniper_reencodings_share_their_key :
@@ -30,4 +38,5 @@ Proof.
 Qed.
 
 Print Assumptions C08_consistent_and_collision_free.
+Print Assumptions C08_known_value_gets_its_stored_replacement.
 Print Assumptions C08_juniper_reencodings_share_their_key.
